@@ -229,6 +229,7 @@ PROPS_EXTRA = {
             "replay_executed": "C02",
             "phantom_tx": "C05",
             "pending_lost": "C05",
+            "invalid_submission_recorded": "C05",
             "negative_balance_e2e": "C06",
             "conservation_e2e": "C06",
             "batch_not_robot": "C11",
